@@ -1,6 +1,7 @@
 """C19 — clear() restores a fresh structure; clone() is an independent copy."""
 from ..paths import PathEnumerator
 from ..terms import TermBuilder, fmt, subterms
+from ..terms import callee_is as _nm
 from .common import SELF, self_field, methods_of, has_self_receiver, all_writes, rng_fields
 
 EXPLANATION = (
@@ -119,7 +120,7 @@ def reset_paths(ctx, clr):
         for (c_, t_) in pe.path_facts(p):
             for x_ in subterms(c_):
                 if x_[0] == "call" and x_[1].rsplit("::", 1)[-1] in ("is_empty", "len") and len(x_[2]) == 1 and x_[2][0][0] == "field" and x_[2][0][1][:2] == ("param", 1):
-                    empty = _fv(fd_, x_) is True if x_[1].endswith("is_empty") else _fv(fd_, _mk("Eq", x_, _const(0))) is True
+                    empty = _fv(fd_, x_) is True if _nm(x_[1], "is_empty") else _fv(fd_, _mk("Eq", x_, _const(0))) is True
                     if empty:
                         rs.add((x_[2][0][2],))
             # a scalar the path has just found equal to a constant holds that constant without a store (`if .. && self.n == 0 { return; }`)
